@@ -151,6 +151,15 @@ func Load(lc LoadConfig) (*Prog, error) {
 			p.SSAPkg[ShortPath(pk.PkgPath)] = sp
 		}
 	}
+	altCache := map[string]string{}
+	AltName = func(name string) string {
+		if v, ok := altCache[name]; ok {
+			return v
+		}
+		v := p.altName(name)
+		altCache[name] = v
+		return v
+	}
 	return p, nil
 }
 
@@ -271,9 +280,64 @@ func FuncName(fn *ssa.Function) string {
 // when the function itself is gone (inlined into its caller and deleted).
 var AnchorHosts map[string][]string
 
+// altForms: the same unexported function written the other way round (a method turned into a plain function that
+// takes the receiver, or a plain function turned into a method): pkg.(*T).name <-> pkg.name. Exported names and
+// ambiguous base names are not rewritten.
+func (p *Prog) altForms(name string) []string {
+	pkgName, rest := splitName(name)
+	base := rest
+	if i := strings.LastIndex(rest, "."); i >= 0 {
+		base = rest[i+1:]
+	}
+	if base == "" || ast.IsExported(base) {
+		return nil
+	}
+	prefix := pkgName
+	if prefix == "" {
+		prefix = "tabula"
+	}
+	var out []string
+	for key := range p.AllDecls() {
+		if key == name || !strings.HasPrefix(key, prefix+".") {
+			continue
+		}
+		kp, kr := splitName(key)
+		if kp != pkgName {
+			continue
+		}
+		kb := kr
+		if i := strings.LastIndex(kr, "."); i >= 0 {
+			kb = kr[i+1:]
+		}
+		if kb == base && (strings.Contains(kr, ".") != strings.Contains(rest, ".")) {
+			out = append(out, key)
+		}
+	}
+	if len(out) != 1 {
+		return nil
+	}
+	return out
+}
+
+// altName: the unique other-form spelling of name when name itself does not exist (see altForms).
+func (p *Prog) altName(name string) string {
+	if !strings.Contains(name, ".") || p.funcExact(name) != nil {
+		return ""
+	}
+	if a := p.altForms(name); len(a) == 1 {
+		return a[0]
+	}
+	return ""
+}
+
 func (p *Prog) Func(name string) (fn *ssa.Function) {
 	if fn = p.funcExact(name); fn != nil {
 		return fn
+	}
+	for _, a := range p.altForms(name) {
+		if fn = p.funcExact(a); fn != nil {
+			return fn
+		}
 	}
 	for _, h := range AnchorHosts[name] {
 		if fn = p.funcExact(h); fn != nil {
@@ -389,6 +453,13 @@ func (p *Prog) Decl(name string) *FuncDecl {
 	})
 	if d := p.decls[name]; d != nil {
 		return d
+	}
+	if name != "" {
+		for _, a := range p.altForms(name) {
+			if d := p.decls[a]; d != nil {
+				return d
+			}
+		}
 	}
 	for _, h := range AnchorHosts[name] {
 		if d := p.decls[h]; d != nil {
